@@ -49,6 +49,18 @@ OPS = [
     ('some->none', r'= Some\(([^()]*)\);', '= None;'),
     ('unwrap_or_default', r'\.ok_or\(([^()]|\([^()]*\))*\)\?', '.unwrap_or_default()'),
 ]
+OPS2 = [
+    ('lt->gt', r' < ', ' > '), ('gt->lt', r' > ', ' < '), ('le->ge', r' <= ', ' >= '), ('ge->le', r' >= ', ' <= '),
+    ('drop-not', r'\bif !', 'if '), ('add-not', r'\bif (?!let\b|!)', 'if !'), ('while-drop-not', r'\bwhile !', 'while '),
+    ('some->none-expr', r'\bSome\(([a-z_][\w\.]*)\)', 'None'), ('ok-unit-early', r'\breturn Err\(', 'return Ok(Default::default()); Err('),
+    ('and->first', r'(\bif\s+)([^&|{]+) && ([^&|{]+) \{', r'\1\2 {'), ('and->second', r'(\bif\s+)([^&|{]+) && ([^&|{]+) \{', r'\1\3 {'),
+    ('or->first', r'(\bif\s+)([^&|{]+) \|\| ([^&|{]+) \{', r'\1\2 {'), ('or->second', r'(\bif\s+)([^&|{]+) \|\| ([^&|{]+) \{', r'\1\3 {'),
+    ('saturating->wrapping', r'saturating_sub', 'wrapping_sub'), ('checked_mul->wrapping', r'\.checked_mul\(([^()]*)\)\s*\.ok_or\([^()]*(\([^()]*\))?[^()]*\)\?', r'.wrapping_mul(\1)'),
+    ('to_lowercase-drop', r'\.to_lowercase\(\)', '.to_string()'), ('to_uppercase-drop', r'\.to_uppercase\(\)', '.to_string()'),
+    ('trim-drop', r'\.trim_end_matches\(([^()]*)\)', ''), ('first->last', r'\.first\(\)', '.last()'), ('last->first', r'\.last\(\)', '.first()'),
+    ('insert->noop-get', r'\.remove\(', '.get('), ('contains_key-negate', r'(\b[\w\.]+)\.contains_key\(', r'!\1.contains_key('),
+    ('take->skip', r'\.take\(', '.skip('), ('rev-drop', r'\.rev\(\)', ''),
+]
 NUM = re.compile(r'(?<![\w.])(0x[0-9a-fA-F]+|\d+)(?![\w.]|\s*\.\.)')
 
 
@@ -71,7 +83,7 @@ def code_lines(path, text):
     return out
 
 
-def gen():
+def gen(round2=False):
     muts = []
     for f, group in FILES.items():
         text = open('/repo/' + f).read()
@@ -84,7 +96,7 @@ def gen():
                 if not re.search(r'zvt_bmp|zvt_tlv|zvt_control_field', s):
                     continue
                 attr_seen += 1
-                if attr_seen % 3 != 0:
+                if attr_seen % 3 != (1 if round2 else 0):
                     continue
                 cands = []
                 for m in NUM.finditer(l):
@@ -100,7 +112,7 @@ def gen():
                     muts.append({'file': f, 'group': group, 'line': i + 1, 'op': op, 'old': l, 'new': l[:a] + rep + l[b:]})
                 continue
             code = l.split('//')[0]
-            for op, rx, rep in OPS:
+            for op, rx, rep in (OPS2 if round2 else OPS):
                 for m in re.finditer(rx, code):
                     new = code[:m.start()] + m.expand(rep) + code[m.end():]
                     if new != code:
@@ -111,12 +123,14 @@ def gen():
                     # skip generic parameters like Fixed<2> only when inside a type position of a `length =` attribute (handled above)
                     g = m.group(1)
                     v = int(g, 16) if g.startswith('0x') else int(g)
-                    nv = v + 1
+                    nv = v - 1 if round2 else v + 1
+                    if nv < 0:
+                        continue
                     rep = hex(nv) if g.startswith('0x') else str(nv)
                     new = code[:m.start()] + rep + code[m.end():]
-                    muts.append({'file': f, 'group': group, 'line': i + 1, 'op': 'number+1', 'old': l, 'new': new})
+                    muts.append({'file': f, 'group': group, 'line': i + 1, 'op': 'number-1' if round2 else 'number+1', 'old': l, 'new': new})
             # statement deletion: a plain call / assignment statement on its own line
-            if re.match(r'^\s*[a-z_][\w\.]*(\([^;]*\)|\s*=\s*[^;]+|\.[a-z_]+\([^;]*\))\s*;\s*$', code) and not re.match(r'^\s*(let|return|break|continue|use|pub|const|static|type)\b', code):
+            if not round2 and re.match(r'^\s*[a-z_][\w\.]*(\([^;]*\)|\s*=\s*[^;]+|\.[a-z_]+\([^;]*\))\s*;\s*$', code) and not re.match(r'^\s*(let|return|break|continue|use|pub|const|static|type)\b', code):
                 muts.append({'file': f, 'group': group, 'line': i + 1, 'op': 'delete-statement', 'old': l, 'new': ''})
     # identity
     for m in muts:
@@ -239,5 +253,7 @@ def run(path, k, n, outp):
 if __name__ == '__main__':
     if sys.argv[1] == 'gen':
         gen()
+    elif sys.argv[1] == 'gen2':
+        gen(True)
     elif sys.argv[1] == 'run':
         run(sys.argv[2], int(sys.argv[3]), int(sys.argv[4]), sys.argv[5])
